@@ -22,6 +22,25 @@ def noShadow (s : App) : List (Nat × Nat) → Bool
                  rest.all (fun e' => match s.getVal e'.2 with | some w => !cand w | none => true)
      | none => false) && noShadow s rest
 
+/-- sum of the voting powers behind the index entries the first loop counts (an entry per visit) -/
+def idxPow (s : App) : List (Nat × Nat) → Int
+  | [] => 0
+  | e :: l => (match s.getVal e.2 with | some v => if cand v then ((powerOf v.tokens : Nat) : Int) else 0 | none => 0) + idxPow s l
+
+def sumF (f : Val → Int) : List Val → Int
+  | [] => 0
+  | v :: l => f v + sumF f l
+
+/-- tokens the not-bonded pool has to hold for this record -/
+def nbTok (v : Val) : Int := if v.status = .bonded then 0 else (v.tokens : Int)
+/-- tokens the bonded pool has to hold for this record -/
+def bTok (v : Val) : Int := if v.status = .bonded then (v.tokens : Int) else 0
+
+def sortedNat : List Nat → Bool
+  | [] => true
+  | [_] => true
+  | a :: b :: l => decide (a < b) && sortedNat (b :: l)
+
 def hasCandEntry (s : App) (v : Val) : Bool := cand v && decide (occ v.op s.index > 0)
 
 end App
@@ -50,18 +69,16 @@ def Pre (s : App) (c : CSet) : Bool :=
   s.vals.all (fun v => !(v.status == .bonded && !v.jailed) || hasCandEntry s v || amem v.op s.last) &&
   -- 9. somebody stays, and powers fit CometBFT's bounds
   s.vals.any (fun v => hasCandEntry s v) &&
-  decide (sumInts ((s.vals.filter (hasCandEntry s)).map (fun v => ((powerOf v.tokens : Nat) : Int))) ≤ maxTotalPower) &&
+  (decide (Comet.total c + idxPow s s.index ≤ maxTotalPower) && c.all (fun e => decide (0 ≤ e.2))) &&
   -- 11. the unbonding queue is sound: every queued operator is an Unbonding record filed under its own time and
   --     height, once; an emptied validator has no tokens left; the unbonding period is positive
   s.ubq.all (fun q => q.2.all (fun op => match s.getVal op with
     | some v => v.ubTime == q.1.1 && v.ubHeight == q.1.2 && v.status == .unbonding && (v.shares != 0 || v.tokens == 0)
     | none => false)) &&
   nodupNat (s.ubq.flatMap (·.2)) && decide (s.params.unbond > 0) &&
-  -- 10. the pools can carry the transfers (tokens of validators that move are in the pool they move from)
-  decide (sumInts ((s.vals.filter (fun v => hasCandEntry s v && v.status != .bonded)).map (fun v => (v.tokens : Int))) ≤ s.notBonded +
-          sumInts ((s.vals.filter (fun v => amem v.op s.last && !hasCandEntry s v)).map (fun v => (v.tokens : Int)))) &&
-  decide (sumInts ((s.vals.filter (fun v => amem v.op s.last && !hasCandEntry s v)).map (fun v => (v.tokens : Int))) ≤ s.bonded +
-          sumInts ((s.vals.filter (fun v => hasCandEntry s v && v.status != .bonded)).map (fun v => (v.tokens : Int))))
+  -- 10. the records are stored in operator order, and each pool covers the tokens of the validators of its kind
+  (sortedNat (s.vals.map (·.op)) && decide (sumF nbTok s.vals ≤ s.notBonded)) &&
+  decide (sumF bTok s.vals ≤ s.bonded)
 
 /-- the conclusion, as a Boolean: CometBFT's set after the block is (extensionally) the chain's own set -/
 def stepAgrees (c' : CSet) (s' : App) : Bool :=
